@@ -17,7 +17,9 @@ impl Hash for It { fn hash<H: Hasher>(&self, h: &mut H) { tick("user Hash::hash"
 #[derive(Clone, Copy, Debug, PartialEq, Eq, serde::Serialize, serde::Deserialize)]
 #[serde(transparent)]
 struct Pr(i32);
-impl Ord for Pr { fn cmp(&self, o: &Self) -> std::cmp::Ordering { tick("user Ord::cmp"); self.0.cmp(&o.0) } }
+impl Ord for Pr { fn cmp(&self, o: &Self) -> std::cmp::Ordering { tick("user Ord::cmp"); CMPS.with(|c| c.set(c.get() + 1)); self.0.cmp(&o.0) } }
+thread_local! { static CMPS: std::cell::Cell<u64> = std::cell::Cell::new(0); }
+fn cmps() -> u64 { CMPS.with(|c| c.get()) }
 impl PartialOrd for Pr { fn partial_cmp(&self, o: &Self) -> Option<std::cmp::Ordering> { Some(self.cmp(o)) } }
 impl std::ops::AddAssign<i32> for Pr { fn add_assign(&mut self, d: i32) { self.0 += d } }
 impl std::ops::SubAssign<i32> for Pr { fn sub_assign(&mut self, d: i32) { self.0 -= d } }
@@ -82,6 +84,12 @@ trait Q: Clone {
     fn sorted_iter_lens(self, k: usize) -> Result<(), String>;
     /// std adaptors over iter / into_iter / drain agree with plain next / next_back
     fn adaptors(&mut self, k: usize) -> Result<(), String>;
+    /// iter_mut consumed from both ends following `bits`: addresses handed out, and what came after the first None
+    fn iter_mut_walk(&mut self, bits: u64, calls: usize) -> Result<(), String>;
+    fn retain_all(&mut self, mutable: bool);
+    fn append_roomy(&mut self, v: Vec<(It, i32)>, room: usize) -> (usize, usize, usize);
+    /// comparison counts of single-element operations and bulk constructions on a queue of n elements
+    fn cost_probe(n: usize) -> Result<(), String>;
     fn pop_hi_if_panic(&mut self);
     /// run an operation whose user callback panics at its k-th call (the panic is caught by the caller)
     fn faulty(&mut self, which: u64, k: usize, id: u16);
@@ -111,6 +119,34 @@ macro_rules! common { ($T:ident) => {
     fn from_it(v: Vec<(It, i32)>, lo: usize, hi: Option<usize>) -> Self { Hinted { it: pr(v).into_iter(), lo, hi }.collect() }
     fn roundtrip(&self) -> Result<Self, String> { let s = serde_json::to_string(self).map_err(|e| e.to_string())?; serde_json::from_str(&s).map_err(|e| e.to_string()) }
     fn same(&self, o: &Self) -> bool { self == o }
+    fn retain_all(&mut self, mutable: bool) { if mutable { $T::retain_mut(self, |_, _| true) } else { $T::retain(self, |_, _| true) } }
+    fn append_roomy(&mut self, v: Vec<(It, i32)>, room: usize) -> (usize, usize, usize) {
+        let mut o: Self = pr(v).into_iter().collect(); o.reserve(room); self.append(&mut o); (o.len(), o.iter().count(), o.iter().len()) }
+    fn cost_probe(n: usize) -> Result<(), String> {
+        let lg = (usize::BITS - n.leading_zeros()) as u64;
+        let single = 14 * lg + 24;                // a sift visits <= log2 n levels, <= 7 comparisons per two levels in the min-max heap
+        let bulk = 8 * n as u64 + 64;             // Floyd's construction is linear
+        let asc: Vec<(It, Pr)> = (0..n).map(|j| (It { id: j as u16, tag: 0 }, Pr(j as i32))).collect();
+        macro_rules! cost { ($what:expr, $limit:expr, $e:expr) => { let c0 = cmps(); let _ = $e; let c = cmps() - c0; if std::env::var("PQ_CEX_COSTS").is_ok() { eprintln!("{:55} {:8} / {}", $what, c, $limit); } if c > $limit { return Err(format!("{} on {} elements: {} comparisons, budget {}", $what, n, c, $limit)); } } }
+        cost!("from(Vec)", bulk, { let q: Self = $T::from(asc.clone()); q });
+        cost!("collect() from an ascending iterator", bulk, { let q: Self = asc.clone().into_iter().collect(); q });
+        let mut q: Self = asc.clone().into_iter().collect();
+        cost!("extend with n new pairs", 2 * bulk, q.extend((n..2 * n).map(|j| (It { id: j as u16, tag: 0 }, Pr(j as i32)))));
+        let mut q: Self = asc.clone().into_iter().collect();
+        cost!("push of a new maximum", single, q.push(It { id: 60000, tag: 0 }, Pr(i32::MAX)));
+        cost!("push of a new minimum", single, q.push(It { id: 60001, tag: 0 }, Pr(i32::MIN)));
+        cost!("change_priority of the first item to the maximum", single, q.change_priority(&It { id: 0, tag: 0 }, Pr(i32::MAX - 1)));
+        cost!("change_priority of the last item to the minimum", single, q.change_priority(&It { id: (n - 1) as u16, tag: 0 }, Pr(i32::MIN + 1)));
+        cost!("push_increase", single, q.push_increase(It { id: 5, tag: 0 }, Pr(i32::MAX - 2)));
+        cost!("push_decrease", single, q.push_decrease(It { id: 7, tag: 0 }, Pr(i32::MIN + 2)));
+        cost!("remove", single, $T::remove(&mut q, &It { id: 9, tag: 0 }));
+        cost!("pop_hi", single, Q::pop_hi(&mut q));
+        cost!("pop_lo", single, Q::pop_lo(&mut q));
+        cost!("pop_if (rejecting, demoting to the minimum)", single, Q::pop_hi_if(&mut q, i32::MIN + 3, false));
+        cost!("pop_if (rejecting, unchanged)", single, { let top = q.extremes().1.unwrap(); Q::pop_hi_if(&mut q, top, false) });
+        cost!("pop_if (accepting)", single, Q::pop_hi_if(&mut q, 0, true));
+        cost!("peek", 4, q.extremes());
+        Ok(()) }
     fn from_json(s: &str) -> Result<Self, String> { serde_json::from_str(s).map_err(|e| e.to_string()) }
     fn adaptors(&mut self, k: usize) -> Result<(), String> {
         let all: Vec<(u16, i32)> = self.iter().map(|(i, p)| (i.id, p.0)).collect(); let n = all.len();
@@ -172,6 +208,8 @@ impl Q for PriorityQueue<It, Pr> {
     fn iter_mut_rewrite(&mut self, k: usize, d: i32, _b: bool) { for (_, p) in self.iter_mut().take(k) { *p += d; } }
     fn sorted_desc(self) -> Vec<It> { self.into_sorted_vec() }
     fn pop_hi_if_panic(&mut self) { self.pop_if(|_, p| { *p -= 900; panic!("user predicate") }); }
+    fn iter_mut_walk(&mut self, bits: u64, calls: usize) -> Result<(), String> { let n = PriorityQueue::len(self); let mut it = self.iter_mut();
+        walk(n, bits, calls, |_back, skip| if skip > 0 { it.nth(skip) } else { it.next() }.map(|(_, p)| p as *mut Pr as usize)) }
     fn sorted_iter_lens(self, k: usize) -> Result<(), String> { let n = PriorityQueue::len(&self); let mut it = self.into_sorted_iter(); let mut left = n;
         for _ in 0..=k { let (lo, hi) = it.size_hint(); if lo > left || hi.map_or(false, |h| h < left) { return Err(format!("into_sorted_iter: size_hint {:?} with {} elements left", (lo, hi), left)); }
             if it.next().is_some() { left -= 1; } } Ok(()) }
@@ -189,6 +227,8 @@ impl Q for DoublePriorityQueue<It, Pr> {
         for _ in 0..k { let x = if from_back { it.next_back() } else { it.next() }; if let Some((_, p)) = x { *p += d; } } }
     fn sorted_desc(self) -> Vec<It> { self.into_descending_sorted_vec() }
     fn pop_hi_if_panic(&mut self) { self.pop_max_if(|_, p| { *p -= 900; panic!("user predicate") }); }
+    fn iter_mut_walk(&mut self, bits: u64, calls: usize) -> Result<(), String> { let n = DoublePriorityQueue::len(self); let mut it = self.iter_mut();
+        walk(n, bits, calls, |back, skip| if skip > 0 { if back { it.nth_back(skip) } else { it.nth(skip) } } else if back { it.next_back() } else { it.next() }.map(|(_, p)| p as *mut Pr as usize)) }
     fn sorted_iter_lens(self, k: usize) -> Result<(), String> { let n = DoublePriorityQueue::len(&self); let mut it = self.into_sorted_iter(); let mut left = n;
         for j in 0..=k { if it.len() != left || it.size_hint() != (left, Some(left)) { return Err(format!("into_sorted_iter: len {} size_hint {:?} with {} elements left", it.len(), it.size_hint(), left)); }
             let x = if j % 2 == 0 { it.next() } else { it.next_back() }; if x.is_some() { left -= 1; } } Ok(()) }
@@ -196,6 +236,23 @@ impl Q for DoublePriorityQueue<It, Pr> {
 }
 
 static FAULTS: std::sync::atomic::AtomicBool = std::sync::atomic::AtomicBool::new(false);
+
+/// iter_mut consumed following `bits` (front / back): every element at most once, nothing after the first None, all of them if it ended
+fn walk<F: FnMut(bool, usize) -> Option<usize>>(n: usize, bits: u64, calls: usize, mut step: F) -> Result<(), String> {
+    let mut seen = std::collections::BTreeSet::new(); let mut ended = false; let mut got = 0usize; let mut skipped = 0usize;
+    for c in 0..calls {
+        let back = (bits >> (c % 60)) & 1 == 1;
+        // now and then skip elements with nth / nth_back (what is skipped is dropped unseen, but counts)
+        let skip = if (bits >> ((c + 7) % 60)) & 7 == 7 { 1 + ((bits >> ((c + 11) % 60)) & 3) as usize } else { 0 };
+        match step(back, skip) {
+            Some(a) => { if ended { return Err(format!("iter_mut yields an element after it had returned None (call {}, {} elements)", c + 1, n)); }
+                         if !seen.insert(a) { return Err(format!("iter_mut hands out the same element twice (call {}, {} elements): two live &mut alias", c + 1, n)); }
+                         got += 1; skipped += skip; }
+            None => { if !ended && got + skipped + skip < n { return Err(format!("iter_mut ended after {} yielded + {} skipped of {} elements (last call skipped {})", got, skipped, n, skip)); } ended = true; } }
+    }
+    if got + skipped > n { return Err(format!("iter_mut produced {} yielded + {} skipped of {} elements", got, skipped, n)); }
+    Ok(())
+}
 
 fn observe<T: Q>(q: &T, m: &Model) -> Result<(), Fail> {
     ck!(q.len() == m.len(), "C03,C04,C13", "len {} but model holds {}", q.len(), m.len());
@@ -259,9 +316,11 @@ fn step<T: Q>(q: &mut T, m: &mut Model, r: &mut Rng, log: &mut Vec<String>) -> R
                 let hit: Vec<u16> = cand.iter().copied().filter(|k| q.get(*k).map(|x| x.1) == Some(p)).collect();
                 ck!(!hit.is_empty(), "C08", "pop_if(false): no former maximum carries the written priority {}", p);
                 let k = hit[0]; m.get_mut(&k).unwrap().1 = p; } }
+        16 if r.below(3) == 0 => { let mt = r.below(2) == 0; log.push(format!("retain{}(keep everything)", if mt { "_mut" } else { "" })); q.retain_all(mt); }
         16 => { let md = 2 + r.below(4) as u16; let d = r.below(5) as i32 - 2; log.push(format!("retain_mut(id%{}!=0, {:+})", md, d)); q.retain_mut(md, d);
             m.retain(|k, v| { v.1 += d * (*k as i32 % 3 - 1); k % md != 0 }); }
         17 => { let k = r.below(40) as usize; let d = r.below(9) as i32 - 4; let b = r.below(2) == 0; log.push(format!("iter_mut rewrite first {} ({}) by {:+}", k, if b { "back" } else { "front" }, d));
+            { let bits = r.next() << 20 ^ r.next(); let calls = q.len() + r.below(4) as usize; if let Err(e) = q.iter_mut_walk(bits, calls) { return Err(Fail { props: "C09".into(), what: e }); } }
             let order: Vec<u16> = q.iter_pairs().iter().map(|x| x.0).collect(); q.iter_mut_rewrite(k, d, b);
             let n = order.len(); let kk = k.min(n);
             let touched: Vec<u16> = if b && T::kind() != "PriorityQueue" { order[n - kk..].to_vec() } else { order[..kk].to_vec() };
@@ -271,6 +330,13 @@ fn step<T: Q>(q: &mut T, m: &mut Model, r: &mut Rng, log: &mut Vec<String>) -> R
             log.push(format!("extend({} pairs, hint ({}, {:?}))", n, lo, hi));
             for (i, p) in &v { let t = m.get(&i.id).map(|x| x.0).unwrap_or(i.tag); m.insert(i.id, (t, *p)); }
             q.extend_h(v, lo, hi); }
+        19 if r.below(3) == 0 && !m.is_empty() && m.len() <= 40 => {
+            // equal lengths with clashes, the other queue having more room: the receiver's pairs stay
+            let keys: Vec<u16> = m.keys().copied().collect(); let mut v: Vec<(It, i32)> = vec![]; let mut fresh = 100u16;
+            for k in &keys { if r.below(2) == 0 { v.push((It { id: *k, tag: 7 }, r.below(9) as i32 + 20)); } else { v.push((It { id: fresh, tag: 7 }, r.below(9) as i32)); fresh += 1; } }
+            let room = r.below(200) as usize; log.push(format!("append(queue of equal length {} with {} spare capacity)", v.len(), room));
+            let left = q.append_roomy(v.clone(), room); ck!(left == (0, 0, 0), "C07,C16,C13", "append leaves the other queue with (len, iter().count(), iter().len()) = {:?}", left);
+            for (i, p) in v { if !m.contains_key(&i.id) { m.insert(i.id, (i.tag, p)); } } }
         19 => { let n = r.below(40) as usize; let mut v: Vec<(It, i32)> = vec![]; for _ in 0..n { let i = r.below(ids + 20) as u16; if !v.iter().any(|x| x.0.id == i) { v.push((It { id: i, tag: 7 }, r.below(9) as i32)); } }
             log.push(format!("append(queue of {})", v.len())); let longer = v.len() > m.len();
             let left = q.append_from(v.clone()); ck!(left == (0, 0, 0), "C07,C16,C13", "append leaves the other queue with (len, iter().count(), iter().len()) = {:?}", left);
@@ -333,6 +399,10 @@ fn run_seq<T: Q>(seed: u64, index: u64, len: usize, want: &str, trace: bool) -> 
     let mut r = Rng(seed.wrapping_mul(0x9e3779b97f4a7c15) ^ index.wrapping_mul(0xd1b54a32d192ed03) ^ 0x5bf0_3635);
     let mut q = T::new(); let mut m = Model::new(); let mut log = vec![format!("{}::new()", T::kind())];
     if trace { println!("  {:3}: {}", 0, log[0]); }
+    if want == "C05" && index < 2 {
+        let n = 4096; log.push(format!("comparison counts on a {} of {} elements", T::kind(), n));
+        if let Err(e) = T::cost_probe(n) { return Some((format!("[C05] {}", e), log)); }
+    }
     // after a caught panic in user code or a leaked iter_mut (a FAULT step) only memory safety is promised (C10):
     // the oracle is switched off and the history continues; the only failure left is the process aborting
     // (debug builds of std abort on the unsafe preconditions of get_unchecked & co.), which the supervisor reports
